@@ -108,6 +108,15 @@ def part_tables(ctx, quick):
         for alias in group:
             for v in case_variants(r, alias):
                 same_parse(ctx, base, ["select %s from . where %s = 1 order by %s" % (v, v, v)], "column:" + group[0])
+    # a column name keeps meaning the column when an arithmetic sign follows it without a blank, in any letter case
+    for group in g.get("docFieldGroups", []):
+        if group[0] not in ("size", "hardlinks", "uid", "gid", "inode", "blocks"):
+            continue
+        tmpl = "select %s*2, %s+1, (%s%%3) from . where %s/2 gte 3"
+        base = [tmpl % ((group[0],) * 4)]
+        for alias in group:
+            for v in case_variants(r, alias):
+                same_parse(ctx, base, [tmpl % ((v,) * 4)], "column-before-sign:" + group[0])
     for group in g.get("docFunctionGroups", []):
         ar = FN_ARITY.get(group[0], 1)
         base = [FN_TEMPLATES[ar] % group[0]]
